@@ -15,6 +15,7 @@ const (
 	ModeEmpty       // every container non-nil and empty, pointers non-nil
 	ModeFull        // every container non-nil with >= 2 elements, pointers non-nil
 	ModeNilDeep     // containers present at the top, nil below
+	ModeBig         // like ModeFull, but maps at depth <= 1 hold about 70 entries
 )
 
 // Strings is the boundary-biased string pool: quotes, backquotes, newlines, invalid UTF-8,
@@ -31,6 +32,8 @@ type Gen struct {
 	R        *rand.Rand
 	MaxDepth int
 	NoShare  bool                            // never reuse pointers inside one value (tree-shaped values)
+	NaNKeys  bool                            // float map keys may be NaN (only for prior destination states: values under comparison are NaN-free)
+	bigMaps  bool                            // maps near the top get ~70 entries (set by ModeBig)
 	shared   map[reflect.Type][]reflect.Value // pointers created in the current value, for DAG sharing
 }
 
@@ -40,6 +43,10 @@ func NewGen(seed int64) *Gen { return &Gen{R: rand.New(rand.NewSource(seed)), Ma
 // Value generates one value of type t.
 func (g *Gen) Value(t reflect.Type, m Mode) reflect.Value {
 	g.shared = map[reflect.Type][]reflect.Value{}
+	g.bigMaps = m == ModeBig
+	if m == ModeBig {
+		m = ModeFull
+	}
 	v := reflect.New(t).Elem()
 	g.fill(v, m, 0)
 	return v
@@ -220,11 +227,20 @@ func (g *Gen) fill(v reflect.Value, m Mode, depth int) {
 		if isNil {
 			return
 		}
+		if g.bigMaps && depth <= 1 && syntheticKey(reflect.New(v.Type().Key()).Elem(), 0) {
+			n = 66 + r.Intn(8)
+		}
 		mp := reflect.MakeMapWithSize(v.Type(), n)
 		for i := 0; i < n; i++ {
 			k := reflect.New(v.Type().Key()).Elem()
 			km := ModeRandom
 			g.fill(k, km, depth+1)
+			if n > 60 {
+				syntheticKey(k, i)
+			}
+			if g.NaNKeys && r.Intn(3) == 0 {
+				nanKey(k)
+			}
 			e := reflect.New(v.Type().Elem()).Elem()
 			es := sub
 			if m == ModeRandom && r.Intn(4) == 0 {
@@ -243,12 +259,78 @@ func (g *Gen) fill(v reflect.Value, m Mode, depth int) {
 	}
 }
 
+// syntheticKey sets k to the i-th of many distinct keys; false if the key kind has too few values.
+func syntheticKey(k reflect.Value, i int) bool {
+	switch k.Kind() {
+	case reflect.String:
+		k.SetString("key-" + string(rune('a'+i%26)) + string(rune('a'+i/26)))
+		return true
+	case reflect.Int, reflect.Int16, reflect.Int32, reflect.Int64:
+		k.SetInt(int64(i*37 - 1000))
+		return true
+	case reflect.Uint, reflect.Uint16, reflect.Uint32, reflect.Uint64, reflect.Uintptr:
+		k.SetUint(uint64(i * 37))
+		return true
+	case reflect.Float32, reflect.Float64:
+		k.SetFloat(float64(i) * 0.5)
+		return true
+	}
+	return false
+}
+
+// nanKey puts a NaN into the first float found in a map key (prior destination states only).
+func nanKey(k reflect.Value) bool {
+	switch k.Kind() {
+	case reflect.Float32, reflect.Float64:
+		k.SetFloat(math.NaN())
+		return true
+	case reflect.Complex64, reflect.Complex128:
+		k.SetComplex(complex(math.NaN(), 0))
+		return true
+	case reflect.Array:
+		if k.Len() > 0 {
+			return nanKey(k.Index(0))
+		}
+	case reflect.Struct:
+		for i := 0; i < k.NumField(); i++ {
+			if nanKey(field(k, i)) {
+				return true
+			}
+		}
+	}
+	return false
+}
+
 // Pool returns a boundary-biased pool of n values of type t: the zero value, the all-empty value,
 // a full value, a "containers at the top, nil below" value and random ones.
 func (g *Gen) Pool(t reflect.Type, n int) []reflect.Value {
 	out := []reflect.Value{g.Value(t, ModeZero), g.Value(t, ModeEmpty), g.Value(t, ModeFull), g.Value(t, ModeNilDeep)}
+	if hasMap(t, map[reflect.Type]bool{}, 0) && n > 5 {
+		out = append(out, g.Value(t, ModeBig))
+	}
 	for len(out) < n {
 		out = append(out, g.Value(t, ModeRandom))
 	}
 	return out[:n]
+}
+
+// hasMap reports a map type at depth <= 2 of t.
+func hasMap(t reflect.Type, seen map[reflect.Type]bool, depth int) bool {
+	if seen[t] || depth > 2 {
+		return false
+	}
+	seen[t] = true
+	switch t.Kind() {
+	case reflect.Map:
+		return true
+	case reflect.Pointer, reflect.Slice, reflect.Array:
+		return hasMap(t.Elem(), seen, depth+1)
+	case reflect.Struct:
+		for i := 0; i < t.NumField(); i++ {
+			if hasMap(t.Field(i).Type, seen, depth+1) {
+				return true
+			}
+		}
+	}
+	return false
 }
